@@ -266,6 +266,22 @@ func optRoundTrip(r *core.Run) {
 		}
 		if d := setDiff(want, tlvSet(back)); d != "" {
 			r.Fail("C16", "roundtrip", name, "set", "parse(serialise(S)) != S: %s", d)
+			continue
+		}
+		// a parsed set is logged: rendering is an observer and copes with every value a parser accepts
+		// (sets of tens of kilobytes only now and then: rendering them costs more than everything else here)
+		if len(ser) > 2048 && r.Cfg.Index%8 != 0 {
+			continue
+		}
+		if p := r.Call("smpp.TLVs.String", func() {
+			_ = back.String()
+			for _, t := range back {
+				_ = t.String()
+			}
+		}); p != nil {
+			r.Fail("C16", "panic", p.Frame, "String/"+p.Kind, "rendering a set parsed by %s: %s", name, p.Value)
+		} else if d := setDiff(want, tlvSet(back)); d != "" {
+			r.Fail("C16", "roundtrip", "smpp.TLVs.String", "set-changed", "rendering changed the parsed set: %s", d)
 		}
 	}
 	// SMGP
@@ -298,6 +314,17 @@ func optRoundTrip(r *core.Run) {
 		r.Fail("C16", "roundtrip", "smgp.ParseOptions", "error", "parsing the container's own serialisation failed: %v", e1)
 	} else if d := setDiff(want, optSet(b1)); d != "" {
 		r.Fail("C16", "roundtrip", "smgp.ParseOptions", "set", "parse(serialise(S)) != S: %s", d)
+	} else if len(oser) > 2048 && r.Cfg.Index%8 != 0 {
+		// rendered only now and then
+	} else if p := r.Call("smgp.Options.String", func() {
+		_ = b1.String()
+		for _, o := range b1 {
+			_ = o.String()
+		}
+	}); p != nil {
+		r.Fail("C16", "panic", p.Frame, "String/"+p.Kind, "rendering a set parsed by ParseOptions: %s", p.Value)
+	} else if d := setDiff(want, optSet(b1)); d != "" {
+		r.Fail("C16", "roundtrip", "smgp.Options.String", "set-changed", "rendering changed the parsed set: %s", d)
 	}
 	rd := packet.NewPacketReader(append([]byte(nil), oser...))
 	if p := r.Call("smgp.ReadOptions", func() { b2 = smgp.ReadOptions(rd) }); p != nil {
